@@ -324,5 +324,15 @@ def run(tier='quick'):
     # the guard these operations rely on begins, commits and rolls back as its name promises
     from . import c14
     c14._guard_shape(prog, eff, chk, P4)
+    P5 = chk.rule('P5', 'a statement that fetches the rows of a sibling / entry chain for the walk from its tail restricts '
+                        'them by the group key alone (parentListId / listId): any further predicate removes a link and '
+                        'every row in front of it disappears from the listing', floor=3)
+    from . import extra
+    extra.chain_listings_complete(prog, cg, eff, chk, P5)
+    P6 = chk.rule('P6', 'entries are listed in the order they were added: the function that inserts a row into PlaylistEntity makes the previous tail point at it: the id written into the old '
+                        'tail is last_insert_rowid() read after the INSERT (not a predicted MAX(id) + 1, wrong once the '
+                        'highest row of the AUTOINCREMENT table was deleted), and the old tail is found as the row of the '
+                        'list whose next-pointer is the sentinel 0 (not by its id)', floor=1)
+    extra.new_tail_linked(prog, cg, eff, chk, P6)
     return chk.finish('parsed triggers of every supported 2.x DDL; value-flow interpretation of the 2.x crate '
                       'move / create-after operations and of add_back; structural check of the two chain walkers')
